@@ -143,3 +143,76 @@ Section Geometry.
     apply Rmult_le_compat_l; [lra|]. apply Rmult_le_compat; lra.
   Qed.
 End Geometry.
+
+(* ---- vis-viva: before the short-period corrections the report's radial and transverse rates and radius satisfy
+        v^2 / 2 - mu / r = - mu / (2 a)   with mu = ke^2, exactly, for every Ew ------------------------------------ *)
+Section VisViva.
+  Variable el : elements.
+  Variable t : tstate.
+  Variables e Ew : R.
+  Hypothesis Ha : 0 < a el t.
+  Hypothesis HeL : eL2 el t e < 1.
+
+  Lemma pL_pos_g : 0 < pL el t e.
+  Proof. unfold pL. pose proof (eL2_nonneg el t e). apply Rmult_lt_0_compat; lra. Qed.
+
+  Theorem vis_viva :
+    (rdot el t e Ew ^ 2 + rfdot el t e Ew ^ 2) / 2 - ke ^ 2 / r el t e Ew = - ke ^ 2 / (2 * a el t).
+  Proof.
+    assert (Ha' : a el t <> 0) by lra.
+    pose proof (ecosE_lt1 el t e Ew HeL) as Hec. pose proof pL_pos_g as Hp.
+    assert (Hr : r el t e Ew <> 0) by (apply r_nonzero; assumption).
+    unfold rdot, rfdot.
+    replace ((ke * sqrt (a el t) * esinE el t e Ew / r el t e Ew) ^ 2)
+      with (ke ^ 2 * (sqrt (a el t) * sqrt (a el t)) * esinE el t e Ew ^ 2 / r el t e Ew ^ 2) by (field; exact Hr).
+    replace ((ke * sqrt (pL el t e) / r el t e Ew) ^ 2)
+      with (ke ^ 2 * (sqrt (pL el t e) * sqrt (pL el t e)) / r el t e Ew ^ 2) by (field; exact Hr).
+    rewrite !sqrt_sqrt by lra.
+    (* esinE^2 + ecosE^2 = eL2 *)
+    assert (Hid : esinE el t e Ew ^ 2 + ecosE el t e Ew ^ 2 = eL2 el t e).
+    { unfold esinE, ecosE, eL2. pose proof (sincos1 Ew) as SC.
+      replace ((axN el t e * sin Ew - ayN el t e * cos Ew) ^ 2 + (axN el t e * cos Ew + ayN el t e * sin Ew) ^ 2)
+        with ((axN el t e ^ 2 + ayN el t e ^ 2) * (cos Ew ^ 2 + sin Ew ^ 2)) by ring.
+      rewrite SC. ring. }
+    unfold pL. unfold r in *. set (A := a el t) in *. set (c := ecosE el t e Ew) in *.
+    set (s2 := esinE el t e Ew ^ 2) in *. set (L := eL2 el t e) in *.
+    assert (Hs : s2 = L - c ^ 2) by lra. rewrite Hs.
+    assert (H1c : 1 - c <> 0) by lra.
+    field. split; [exact Ha'|exact H1c].
+  Qed.
+
+  (* the short-period corrections of the two rates are at most k2 n / pL and 3 k2 n / pL in size *)
+  Theorem rdotk_band : Rabs (rdotk el t e Ew - rdot el t e Ew) <= k2 * Rabs (n el t) / pL el t e.
+  Proof.
+    assert (Ha' : a el t <> 0) by lra. pose proof pL_pos_g as Hp.
+    unfold rdotk.
+    replace (rdot el t e Ew - k2 * n el t / pL el t e * (1 - theta el ^ 2) * sin2u el t e Ew - rdot el t e Ew)
+      with (- (k2 / pL el t e) * (n el t * ((1 - theta el ^ 2) * sin2u el t e Ew))) by (field; lra).
+    assert (Hk : 0 < k2 / pL el t e) by (apply Rdiv_lt_0_compat; [unfold k2; lra|exact Hp]).
+    rewrite Rabs_mult, Rabs_Ropp, (Rabs_pos_eq _ (Rlt_le _ _ Hk)), Rabs_mult, Rabs_mult.
+    pose proof (sin2u_bound el t e Ew Ha' HeL) as S.
+    assert (T1 : Rabs (1 - theta el ^ 2) <= 1).
+    { unfold theta. pose proof (COS_bound (el_i0 el)) as [C1 C2]. apply Rabs_le. nra. }
+    pose proof (Rabs_pos (n el t)). pose proof (Rabs_pos (1 - theta el ^ 2)). pose proof (Rabs_pos (sin2u el t e Ew)).
+    replace (k2 * Rabs (n el t) / pL el t e) with (k2 / pL el t e * (Rabs (n el t) * (1 * 1))) by (field; lra).
+    apply Rmult_le_compat_l; [lra|]. apply Rmult_le_compat_l; [lra|]. apply Rmult_le_compat; lra.
+  Qed.
+
+  Theorem rfdotk_band : Rabs (rfdotk el t e Ew - rfdot el t e Ew) <= 3 * (k2 * Rabs (n el t) / pL el t e).
+  Proof.
+    assert (Ha' : a el t <> 0) by lra. pose proof pL_pos_g as Hp.
+    unfold rfdotk.
+    replace (rfdot el t e Ew + k2 * n el t / pL el t e * ((1 - theta el ^ 2) * cos2u el t e Ew - 3 / 2 * (1 - 3 * theta el ^ 2)) - rfdot el t e Ew)
+      with ((k2 / pL el t e) * (n el t * ((1 - theta el ^ 2) * cos2u el t e Ew - 3 / 2 * (1 - 3 * theta el ^ 2)))) by (field; lra).
+    assert (Hk : 0 < k2 / pL el t e) by (apply Rdiv_lt_0_compat; [unfold k2; lra|exact Hp]).
+    rewrite Rabs_mult, (Rabs_pos_eq _ (Rlt_le _ _ Hk)), Rabs_mult.
+    pose proof (cos2u_bound el t e Ew Ha' HeL) as C. apply Rabs_le_between in C.
+    assert (B : Rabs ((1 - theta el ^ 2) * cos2u el t e Ew - 3 / 2 * (1 - 3 * theta el ^ 2)) <= 3).
+    { unfold theta. pose proof (COS_bound (el_i0 el)) as [C1 C2].
+      set (th := cos (el_i0 el)) in *. set (c2 := cos2u el t e Ew) in *.
+      assert (0 <= th ^ 2 <= 1) by nra. apply Rabs_le. split; nra. }
+    pose proof (Rabs_pos (n el t)).
+    replace (3 * (k2 * Rabs (n el t) / pL el t e)) with (k2 / pL el t e * (Rabs (n el t) * 3)) by (field; lra).
+    apply Rmult_le_compat_l; [lra|]. apply Rmult_le_compat_l; [lra|exact B].
+  Qed.
+End VisViva.
